@@ -272,6 +272,26 @@ def run(res, b, tier, seed):
         cases.append(pipeline.Case("corpus-" + name, {"main.tsh": j["src"].encode()},
                                    meta=dict(expected_out=j["stdout"], expected_status=j["status"], src=j["src"], original=j["src"],
                                              renaming="directed program: " + j.get("note", ""), reserved=[])))
+    # identifiers of the main file spelled like (private or public) names of an imported file, like its alias, like names of std/strings:
+    # the same main program under several spellings, all with the same expected behaviour (files are separate name spaces)
+    LIB = ('var counter int = 10\nvar Total int = 7\nfunc step(n int) int {\n\treturn n + 1\n}\nfunc Next() int {\n\tcounter = step(counter)\n\treturn counter\n}\n'
+           'func helper(n int) int {\n\treturn n\n}\nfunc Twice(n int) int {\n\treturn helper(n) + helper(n)\n}\n')
+    MAIN = ('import lib "lib.tsh"\nvar %(v)s int = 100\nfunc %(f)s(n int) int {\n\treturn n * 2\n}\nfunc %(g)s(n int) int {\n\treturn %(f)s(n) + 1\n}\n'
+            '%(v)s = %(f)s(%(v)s)\nprint(%(v)s, lib.Next(), lib.Next(), %(g)s(3), lib.Twice(4))\n')
+    MAIN2 = ('import (\n\tlib "lib.tsh"\n\t"strings"\n)\nvar %(v)s int = 100\nfunc %(f)s(n int) int {\n\treturn n * 2\n}\n'
+             '%(v)s = %(f)s(%(v)s)\nprint(%(v)s, lib.Next(), strings.ToUpper("ab"), strings.Repeat("x", 2))\n')
+    spell = [("total", "stride", "plus"), ("counter", "step", "helper"), ("Total", "Next", "Twice"), ("lib", "Lib", "libx"),
+             ("Counter", "Step", "Helper"), ("step", "counter", "next")]
+    for i, (v, f, g) in enumerate(spell):
+        msrc = MAIN % dict(v=v, f=f, g=g)
+        cases.append(pipeline.Case("mf%d" % i, {"main.tsh": msrc.encode(), "lib.tsh": LIB.encode()},
+                                   meta=dict(expected_out=["200 11 12 7 8"], expected_status=0, src=msrc, original=MAIN % dict(v="total", f="stride", g="plus"),
+                                             renaming="main-file identifiers spelled %s, %s, %s next to an imported file that has names of these spellings" % (v, f, g), reserved=[])))
+    for i, (v, f) in enumerate([("total", "stride"), ("strings", "lib"), ("ToUpper", "Repeat"), ("s", "count"), ("result", "i")]):
+        msrc = MAIN2 % dict(v=v, f=f)
+        cases.append(pipeline.Case("ms%d" % i, {"main.tsh": msrc.encode(), "lib.tsh": LIB.encode()},
+                                   meta=dict(expected_out=["200 11 AB xx"], expected_status=0, src=msrc, original=MAIN2 % dict(v="total", f="stride"),
+                                             renaming="main-file identifiers spelled %s, %s next to std/strings (its parameter, local and function names)" % (v, f), reserved=[])))
     dis, fails = semcheck.check_cases(b, cases, stages="asw")
     # Batch target, metamorphic: the script of a renamed program must behave (under the cmd model) like the script of the program
     # as generated - whatever that behaviour is (64-bit literals etc. are outside the cmd model's reference, equality is not)
